@@ -119,6 +119,14 @@ def behave(plan, n):
             if "_shared_err" not in plan:
                 plan["_shared_err"] = ResolverError("shared resolver error")
             raise plan["_shared_err"]
+        kind = (plan.get("variant") or {}).get("err", "fresh")
+        if kind == "subclass":
+            class AppError(ResolverError):       # applications define their own resolver errors
+                pass
+            raise AppError("resolver error at %d" % n, extensions={"node": n})
+        if kind == "proxy":
+            import types
+            raise ResolverError("resolver error at %d" % n, extensions=types.MappingProxyType({"node": n}))   # a Mapping that is not a dict
         raise ResolverError("resolver error at %d" % n, extensions={"node": n})
     # gamma: the class of the unexpected exception - a plain RuntimeError, one of the library's own located errors that is NOT a
     # ResolverError (e.g. what EnumType.get_value raises), or a built-in IndexError (which a careless `except IndexError` swallows)
